@@ -537,58 +537,63 @@ def only(*allowed_per_dummy):
 
 def quick_families():
     lev = 0
-    few = ("k", "i", "i + 1", "a(i)")
-    yield family("SC", ["S"], ["inc", "set", "get", "put"], 2, lev,
-                 ["top", "loop", "twice"])
-    yield family("SC", ["SS"], ["inc", "set", "cpy"], 2, lev, ["top", "if"],
+    few = ("k", "i", "a(i)")
+    yield family("SC", ["S"], ["inc", "set", "get", "put"], 2, lev, ["top", "loop"],
+                 actual_filter=only(("k", "i", "5", "a(i)", "w%f", "g")))
+    yield family("SC", ["S"], ["inc", "get", "put"], 2, lev, ["twice"],
+                 actual_filter=only(("k",)))
+    yield family("SC", ["SS"], ["inc", "set", "cpy"], 2, lev, ["top"],
                  actual_filter=only(("k", "i + 1", "a(i)"), ("k", "i")))
+    yield family("SC", ["SS"], ["inc", "set", "cpy"], 2, lev, ["if"],
+                 actual_filter=only(("a(i)", "i + 1"), ("i",)))
+    yield family("SC", ["SS"], ["inc", "cpy"], 2, lev, ["loop"],
+                 actual_filter=only(("a(i)",), ("k",)))
     yield family("SC", ["SS"], ["get", "put"], 2, lev, ["top"], minlen=2,
                  actual_filter=only(("k", "i + 1", "a(i)"), ("k", "i")))
-    yield family("AR", ["E", "Z", "A", "L"], ARR, 1, lev, ["top", "loop"])
+    yield family("AR", ["E", "Z", "A", "L"], ARR, 1, lev, ["top"])
+    yield family("AR", ["E", "Z", "A", "L"], ARR, 1, lev, ["loop"],
+                 actual_filter=only(("a", "w%d")))
+    yield family("AR", ["E", "Z", "A", "L"], ARR, 1, lev, ["twice"],
+                 actual_filter=only(("b",)))
     yield family("AR", ["E", "Z", "A", "L"], ["el", "loop", "whole"], 2, lev,
-                 ["top"], minlen=2, actual_filter=only(("a(2:m)", "b", "w%d")))
-    yield family("AR", ["E", "Z", "A", "L"], ARR, 1, lev, ["if", "twice"],
-                 actual_filter=only(("a(2:m)", "b", "w%d")))
-    yield family("SC", ["SS"], ["inc", "set", "cpy"], 2, lev, ["loop"],
-                 actual_filter=only(("k", "a(i)"), ("k",)))
+                 ["top"], minlen=2, actual_filter=only(("a(2:m)", "w%d")))
     yield family("AS", ["ES", "ZS", "AS", "LS"], ARRS, 1, lev, ["top"],
-                 actual_filter=only(None, few))
+                 actual_filter=only(("a", "b", "b(1:n)", "w%d"), few))
     yield family("AS", ["ES", "ZS", "AS", "LS"], ARRS, 1, lev, ["loop"],
-                 actual_filter=only(("a", "b(1:n)"), few))
+                 actual_filter=only(("a",), few))
     yield family("AS", ["ES", "ZS", "AS"], ARRS + ["inc"], 2, lev, ["top"],
                  minlen=2, body_filter=lambda b: b.count("inc") == 1,
-                 actual_filter=only(("a", "b(1:n)"), ("i", "k", "a(i)")))
+                 actual_filter=only(("a", "b(1:n)"), ("i", "a(i)")))
     yield family("A2", ["ZA", "AE"], ["el", "whole"], 2, lev, ["top"],
-                 actual_filter=only(("a", "b", "a(2:m)"), ("a", "b", "w%d")))
-    yield family("M2", ["M", "N"], MAT, 1, lev, SUB)
+                 actual_filter=only(("a", "b"), ("b", "w%d")))
+    yield family("M2", ["M", "N"], MAT, 1, lev, ["top", "loop", "twice"])
     yield family("MS", ["MS", "NS"], ["midx"], 1, lev, ["top", "loop"],
                  actual_filter=only(None, few))
-    yield family("ST", ["T"], STRU, 2, lev, SUB)
+    yield family("ST", ["T"], STRU, 2, lev, ["top", "loop"])
     yield family("TS", ["TS"], ["tidx"], 1, lev, ["top", "loop"],
                  actual_filter=only(None, few))
-    yield family("NM", ["S"], ["get", "put", "inc"], 2, lev, SUB, namings=CLASH,
-                 actual_filter=only(("k", "i", "a(i)")))
+    yield family("NM", ["S"], ["get", "put", "inc"], 2, lev, ["top", "loop", "if"],
+                 namings=CLASH, actual_filter=only(("k", "a(i)")))
     yield family("NM", ["SS"], ["cpy", "inc"], 2, lev, ["top"], namings=["N5"],
-                 actual_filter=only(("i", "k", "a(i)"), ("i", "k")))
-    yield family("NM", ["E", "A"], ["loop", "el"], 1, lev, SUB, namings=CLASH,
-                 actual_filter=only(("a", "b(1:n)", "q(:, k)")))
+                 actual_filter=only(("i", "a(i)"), ("k", "i")))
+    yield family("NM", ["E", "A"], ["loop", "el"], 1, lev, ["top", "loop", "twice"],
+                 namings=CLASH, actual_filter=only(("a", "b(1:n)")))
     yield family("NM", ["M"], ["mloop"], 1, lev, ["top", "loop"], namings=CLASH)
     yield family("RT", ["S", "A"], ["inc", "set", "el", "loop"], 2, lev,
                  ["top", "loop"], rets=["R1", "R2", "R3"],
-                 actual_filter=only(("k", "a(i)", "a", "b(1:n)")))
+                 actual_filter=only(("k", "a")))
     yield family("GM", ["S"], ["gmod", "inc"], 2, lev, ["top"],
                  body_filter=lambda b: "gmod" in b,
                  actual_filter=only(("k", "g")))
     yield family("FN", ["S"], ["inc", "get", "put"], 2, lev, FUN,
                  namings=["N0", "N1", "N5"],
-                 actual_filter=only(("k", "i", "5", "i + 1", "a(i)")))
+                 actual_filter=only(("k", "i + 1", "a(i)")))
     yield family("FN", ["S"], ["inc", "get"], 1, lev, ["fexpr", "floop"],
                  rets=["R1"], actual_filter=only(("k", "a(i)")))
     yield family("FN", ["SS"], ["inc", "cpy"], 1, lev, FUN,
-                 actual_filter=only(few + ("5",), few + ("5",)))
+                 actual_filter=only(few, few))
     yield family("FN", ["E", "Z", "A"], ["el", "loop", "sum"], 1, lev, FUN,
-                 namings=["N0", "N3"],
-                 actual_filter=only(("a", "b", "a(2:m)", "w%d")))
+                 namings=["N0", "N3"], actual_filter=only(("a", "a(2:m)", "w%d")))
     yield family("FN", ["M", "T"], ["mel", "tf", "td"], 1, lev, FUN)
 
 
